@@ -24,6 +24,13 @@ def run(chk):
     if len(trans) < 1000:
         raise vplib.Machinery("transition generator produced only %d transitions" % len(trans))
     chk.add_tlc(g, "RevocationGen", gen, "%d transitions emitted" % len(trans))
+    gen2 = "Revocation.gen2.thorough.cfg" if thorough else "Revocation.gen2.quick.cfg"
+    g2 = vplib.tlc("RevocationGen", gen2, workers=1, timeout=1500)
+    seqs = g2.tagged("S")
+    if len(seqs) < 1000:
+        raise vplib.Machinery("two-step generator produced only %d sequences" % len(seqs))
+    chk.add_tlc(g2, "RevocationGen", gen2, "%d two-step sequences (failing call, then Apply)" % len(seqs))
+    trans = trans + seqs
     path = vplib.write_ndjson(os.path.join(vplib.sub("c09"), "transitions.ndjson"), trans)
     # 3. replay on the real code
     res = vplib.vh("rev", ["replay", "--in", path, "--tier", T, "--seed", str(chk.seed)], timeout=3000)
